@@ -48,3 +48,16 @@ def _(self, i, start, s_start, qual, prev_q, seq, mq, norm, muts, phase, dump_ar
     ensures(implies(not differs, norm[pos][len(norm[pos]) - 1][0] == mq), label="mapping-quality-kept")
     ensures(implies(not differs, norm[pos][len(norm[pos]) - 1][0] == bin_quality(mq)), label="mapping-quality-binned-as-implemented")
     modifies(norm, muts, phase, dump_arr)
+
+
+# C06 / C17: the reference-allele entry _make_coverage creates for ONE position (slice inside its first loop)
+
+@contract("aldy.sam.Sample._make_coverage@reference-entry", native=False)
+def _(pos, cov, coverage):
+    types(pos="int", cov="List[Tuple[float, float]]", coverage="Dict[int, Dict[str, List[Tuple[float, float]]]]")
+    # the reference observations of a covered position become the '_' entry of that position ...
+    ensures(implies(len(cov) > 0, pos in coverage and "_" in coverage[pos] and coverage[pos]["_"] == cov), label="reference-observations-kept")
+    # (that the entry is a COPY of the caller's list - F16 was the aliasing of the two - cannot be expressed in the
+    # tree-shaped heap model: a container cell always holds its own object; the native frame clause covers it)
+    ensures(implies(len(cov) == 0, forall(lambda p=int: (p in coverage) == (p in old(coverage)))), label="uncovered-position-skipped")
+    modifies(coverage)
